@@ -4,6 +4,8 @@ import RedisVerif.Model.DataStructs
 import RedisVerif.Model.ExecutorCode
 import RedisVerif.Model.RedisX
 import RedisVerif.Model.ExecutorColl
+import RedisVerif.Model.ExecutorScan
+import RedisVerif.Model.ExecutorX
 
 /-
   C01 / C17 sub-driver, extended with the DATA-STRUCTURE lines (`DS …`): the transcription models of
@@ -33,6 +35,10 @@ import RedisVerif.Model.ExecutorColl
     XCLK <now> <set_time|evict_expired_direct|update_time_readonly>   → "xclk"
     <now> XC <OP> <args…> ;; …      → "<reply> | <PHYSICAL dump of `data`: n {key ttl|-1|dead value}> | nexp=<expirations.len()>"
     <now> XADOPT ;; <physical dump> → "xadopt"     after a command the transcription does not cover
+    <now> XX SETBIT … | GETBIT … | BATCHSET … | BATCHGET … | KEYS <pattern> ;; …   → like XC (`Model.ExecutorX.execXC`)
+    <now> XS OBJENC|OBJREF|OBJIDLE|OBJFREQ|DEBUGOBJ <key> ;; …   → "<reply> | <physical dump> | nexp=…"  (`execStub`)
+    <now> XS CONST <Variant> ;; …                                  → "? | <physical dump> | nexp=…"
+    <now> XSCAN <cursor> <patternhex | -> <count | ->   → "<next cursor> <n> <keyhex>*" | "crash"   (`Model.ExecutorScan.cScan`)
 -/
 namespace RedisVerif.Driver.C01Data
 open RedisVerif RedisVerif.Driver RedisVerif.Redis RedisVerif.Driver.C01
@@ -249,6 +255,60 @@ def stepLine (st : DState) (l : String) : DState × String :=
         ({ st with code := c' }, s!"{showReply (canonReply c r)} | {showPhys c'} | nexp={c'.exp.length}")
       | none => (st, "crash")
     | none => (st, "bad-op")
+  | _ :: "XX" :: rest =>
+    let p : P RedisX.XCmd := do
+      let t ← tok
+      let c ← (match t with
+        | "SETBIT" => do let k ← strKey; let o ← nat; let b ← nat; pure (RedisX.XCmd.setbit k o b)
+        | "GETBIT" => do let k ← strKey; let o ← nat; pure (RedisX.XCmd.getbit k o)
+        | "BATCHSET" => do let kvs ← kvList; pure (RedisX.XCmd.batchset kvs)
+        | "BATCHGET" => do let ks ← keyList; pure (RedisX.XCmd.batchget ks)
+        | "KEYS" => do let p ← bytesTok; pure (RedisX.XCmd.keys p)
+        | _ => failure)
+      expect ";;"
+      pure c
+    match p.run rest with
+    | some (c, _) =>
+      let r := Executor.execXC st.code c
+      ({ st with code := r.1 }, s!"{showReply r.2} | {showPhys r.1} | nexp={r.1.exp.length}")
+    | none => (st, "bad-op")
+  | _ :: "XS" :: rest =>
+    let p : P Executor.StubCmd := do
+      let t ← tok
+      let c ← (match t with
+        | "OBJENC" => do let k ← strKey; pure (Executor.StubCmd.objectEncoding k)
+        | "OBJREF" => do let k ← strKey; pure (Executor.StubCmd.objectRefCount k)
+        | "OBJIDLE" => do let k ← strKey; pure (Executor.StubCmd.objectIdleTime k)
+        | "OBJFREQ" => do let k ← strKey; pure (Executor.StubCmd.objectFreq k)
+        | "DEBUGOBJ" => do let k ← strKey; pure (Executor.StubCmd.debugObject k)
+        | "CONST" => do let n ← tok; pure (Executor.StubCmd.const n)
+        | _ => failure)
+      expect ";;"
+      pure c
+    match p.run rest with
+    | some (c, _) =>
+      let r := Executor.execStub st.code c
+      let shown := match r.2 with
+        | .bulk b => "$" ++ hexOfBytes b
+        | .int i => ":" ++ toString i
+        | .noSuchKey => "-nosuchkey"
+        | .unspecified => "?"
+      ({ st with code := r.1 }, s!"{shown} | {showPhys r.1} | nexp={r.1.exp.length}")
+    | none => (st, "bad-op")
+  | [_, "XSCAN", cur, pat, cnt] =>
+    let patO : Option (Option (List Nat)) :=
+      if pat == "-" then some none
+      else match pat.toList with
+        | 'x' :: cs => (parseHexBytes cs).map some
+        | _ => none
+    let cntO : Option (Option Nat) := if cnt == "-" then some none else cnt.toNat?.map some
+    match cur.toNat?, patO, cntO with
+    | some cur, some pat, some cnt =>
+      match Executor.cScan st.code cur pat cnt with
+      | none => (st, "crash")
+      | some (_, next, keys) =>
+        (st, " ".intercalate (toString next :: toString keys.length :: keys.map showKey))
+    | _, _, _ => (st, "bad-op")
   | nowTok :: "XADOPT" :: ";;" :: rest =>
     match (nowTok.toNat?).bind (fun now => (physDump now).run rest) with
     | some ((d, e), []) => ({ st with code := { st.code with data := d, exp := e } }, "xadopt")
